@@ -199,13 +199,18 @@ func (s *streamWriter) init() {
 // instead of sending the event itself?
 func (s *streamWriter) Shutdown() {
 	evt := actor.RemoteUnreachableEvent{ListenAddr: s.writeToAddr}
-	s.engine.Send(s.routerPID, evt)
-	s.engine.BroadcastEvent(evt)
 	if s.stream != nil {
 		s.stream.Close()
 	}
 	s.inbox.Stop()
 	s.engine.Registry.Remove(s.PID())
+	// Tell the router only once our PID is free again. Otherwise the router
+	// may forget us and spawn the next writer for this address while we are
+	// still registered: that spawn fails as a duplicate, the router keeps the
+	// PID of a writer that never started, and every later message to the
+	// address dead-letters without a new connection attempt ever being made.
+	s.engine.Send(s.routerPID, evt)
+	s.engine.BroadcastEvent(evt)
 }
 
 func (s *streamWriter) Start() {
